@@ -200,3 +200,29 @@ pub fn c14(tier: Tier, seed: u64) -> i32 {
     rep.floor("swaps_before_trade_enable", 30);
     rep.finish()
 }
+
+pub fn c18(tier: Tier, seed: u64) -> i32 {
+    use crate::monitors::c18::C18;
+    let mut rep = Report::new("C18", tier, seed);
+    rep.rule = "history workload with lifecycle operations up-weighted (open x3 flavours + bundled incl. bounds left to be derived from the price, both sentinels, wrong-side sentinels; increase/decrease/collect; close x3; reset range incl. same / inverted / unaligned ranges; reposition; lock; transfer-locked; bundles at all 256 indexes and 256; delete bundle): every lifecycle instruction is judged on decoded pre/post state by rules taken from the statement: one position token, no mint authority, valid range, derived bounds equal the model's nearest usable tick on one side of the price, close only when empty and not locked, re-range only when empty (reset) to a different valid range with checkpoints reset, owed amounts survive reposition, locked positions reject decrease/close/reset/reposition but still accept increase/collect (differential against the same state unfrozen), only positions with liquidity lock, bundle bitmap == open bundled positions found in the bank, bundle deletion only when none is open. distinct = (instruction, outcome, predicate values)".into();
+    rep.assumptions = vec![SVM_ASSUMPTION.into(), "the Metaplex metadata CPI of *_with_metadata runs against a recording stub".into()];
+    let per_shard = tier.pick(16, 1600);
+    let acc = run_histories(
+        seed,
+        per_shard,
+        move |_r| HistCfg { ops: 150, spl_only: false, lifecycle_ext: true, w_swap: 20, w_liq: 22, w_fees: 8, w_lifecycle: 45, w_clock: 2, w_setters: 1, w_reward: 4, ..Default::default() },
+        || vec![Box::new(C18) as Box<dyn Monitor>],
+    );
+    rep.acc = acc;
+    rep.floor("opens_seen", 3000);
+    rep.floor("opens_with_derived_bound", 300);
+    rep.floor("closes_ok", 300);
+    rep.floor("closes_rejected_non_empty", 100);
+    rep.floor("locks_ok", 100);
+    rep.floor("forbidden_ops_on_locked", 50);
+    rep.floor("allowed_ops_on_locked_ok", 30);
+    rep.floor("reranges_ok", 200);
+    rep.floor("bundle_bitmap_checks", 200);
+    rep.floor("bundle_deletes_seen", 30);
+    rep.finish()
+}
